@@ -813,7 +813,8 @@ pub fn vec_program_n(fmt: VFmt, initial: usize, k: usize, rounds: usize, readers
             for r in results.iter().flatten() {
                 for l in r {
                     if let Some(e) = l.strip_prefix("ERR ") {
-                        let short: String = e.split(':').next().unwrap_or(e).chars().take(50).collect();
+                        // the kind of divergence without indices and lengths
+                        let short: String = e.split(':').next().unwrap_or(e).chars().filter(|c| !c.is_ascii_digit()).take(60).collect();
                         v.push(("C09".to_string(), format!("{class}|reader|{short}"), e.to_string()));
                     }
                 }
